@@ -19,6 +19,12 @@ package llm
 //@   init whole = false
 //@   call encoding/json.Unmarshal update whole = result == nil
 //@   call (*encoding/json.Decoder).Decode transitively assert [C13.parse] false
+// the decoded answer is returned as the model wrote it: "exactly MATCH" is decided on the raw verdict, so the parser
+// does not fold case or trim it
+//@   call strings.ToUpper assert [C13.parse] false
+//@   call strings.ToLower assert [C13.parse] false
+//@   call strings.TrimSpace assert [C13.parse] false
+//@   call strings.EqualFold assert [C13.parse] false
 //@   ensures [C13.parse] result1 != nil ==> result0.Verdict == "" && result0.Evidence == ""
 //@   ensures [C13.parse] result1 == nil ==> whole
 
